@@ -173,6 +173,7 @@ def monitor(run):
     for sid, at in outcomes.items():
         if len(at) > 1:
             bad.append((at[1], "outcome-twice: send %d resolved at steps %r" % (sid, at)))
+    bad += PC.partitioner_monitor(run)
     return bad
 
 
